@@ -40,7 +40,30 @@ def _short_read(c: T, pol: bool, raw: T, ks: int) -> bool:
     return False
 
 
+def _take_over(run, mod_name: str, prop: str, repo, select, rule: str, label: str, why: str, floor: int) -> None:
+    """Obligations of another check that are necessary conditions here as well (judged there, reported here too)."""
+    import importlib
+    from ..model import AnalysisError as _AE
+    other = importlib.import_module(f"vstatic.rules.{mod_name}")
+    probe = Run(prop, run.tier, run.repo_root)
+    probe.is_probe = True           # (a check run for its obligations only: it does not take over from others in turn)
+    try:
+        other.check(repo, probe)
+    except _AE:
+        pass            # the floor below fails if the obligations were not reached
+    n = 0
+    for o in probe.obligations:
+        if select(o):
+            n += 1
+            run.ob(rule, o["module"], o["scope"], f"{label} ({prop}/{o['rule']}): {o['construct']}", o["ok"],
+                   (o.get("what", "") + " - " + why) if not o["ok"] else "", nontrivial=False)
+    run.floor(rule, f"{label}: obligations taken over from {prop}", n, floor)
+
+
 def check(repo: Repo, run: Run) -> None:
+    _take_over(run, "c12", "C12", repo, lambda o: o["scope"] == "kevents" and o["rule"] in ("R1", "R2"), "R0",
+               "events listing", "PyKdebugParser.kevents of a version-2 dump then does not hand on exactly the events the "
+               "container parser yields (an unfiltered request must list all m of them, in order)", 8)
     interp = sym.Interp(repo)
     mod = repo.module("kd_buf_parser")
     kb = repo.cls("kd_buf_parser", "KdBufParser")
